@@ -43,6 +43,12 @@ CHECKS["C20"] = dict(
     ref="DESIGN.md section 4 / C20",
 )
 
+CHECKS["C15"] = dict(
+    technique="static analysis: typed lint (mypy as a library) locating every iteration over a set-typed expression and classifying its consumer; sibling agreement __init__/reset; finally-protected state toggles; who-may-write inventory of process-wide state; table-ownership facts from import introspection",
+    text="Hash-seed dependence enters only through iteration order of sets (str/Enum/Expr hashes vary with the seed): every such iteration in the package (mypy-typed, 180+ sites) must feed an order-insensitive consumer or a reviewed site. Dependence on earlier calls enters only through per-instance state that is not reset (checked by __init__/reset agreement and by finally/re-initialisation of every Generator attribute written during generation) or through process-wide state (closed who-may-write inventory, fresh containers in class bodies, TRANSFORMS ownership, no embedding of shared nodes). Any-typed iterables and second-order dict orders are outside the rule and stated as assumptions.",
+    ref="DESIGN.md section 4 / C15",
+)
+
 NOT_APPLICABLE = {
     "C02": "oracle is SQLite/DuckDB evaluation semantics (NULL ordering, division, || precedence); not present in the source, no structural clause implies row equality",
     "C03": "result-multiset equality of optimized vs original query over all databases; guards are semantic conditions, only checkable as frozen fragments (false-alarm prone)",
